@@ -69,6 +69,8 @@ type DocConfig struct {
 	PlainBodies   bool // stream bodies avoid "N G obj" look-alikes and are kept unfiltered sometimes
 	ScalarTopOnly bool
 	BigGaps       bool // object numbers with gaps of thousands
+	// Sink, if set, receives the file instead of an in-memory sink (fault injection).
+	Sink io.Writer
 }
 
 // Encrypted reports whether the configuration asks for encryption.
@@ -166,6 +168,17 @@ type Doc struct {
 	Author    string
 	Custom    map[string]string
 	ID        [][]byte // as reported by the writer
+
+	closeWriter func() error
+}
+
+// CloseAfterFailure calls Writer.Close on a document whose program was
+// abandoned after an error, and returns what Close said.
+func (d *Doc) CloseAfterFailure() error {
+	if d.closeWriter == nil {
+		return nil
+	}
+	return d.closeWriter()
 }
 
 type shared struct {
@@ -298,7 +311,9 @@ func BuildDoc(r *kit.Rand, cfg DocConfig) (*Doc, error) {
 	var sink io.Writer
 	var seek *SeekSink
 	var nonseek *NonSeekSink
-	if cfg.Seekable {
+	if cfg.Sink != nil {
+		sink = cfg.Sink
+	} else if cfg.Seekable {
 		seek = &SeekSink{}
 		sink = seek
 	} else {
@@ -308,6 +323,12 @@ func BuildDoc(r *kit.Rand, cfg DocConfig) (*Doc, error) {
 	w, err := pdf.NewWriter(sink, cfg.Version, opt)
 	if err != nil {
 		return d, fmt.Errorf("NewWriter(%s): %w", cfg.String(), err)
+	}
+	d.closeWriter = func() error {
+		if m := w.GetMeta(); m.Catalog.Pages == 0 {
+			m.Catalog.Pages = pdf.NewReference(1, 0)
+		}
+		return w.Close()
 	}
 	d.Password = cfg.UserPW
 	if cfg.OwnerPW != "" && (cfg.UserPW == "" || r.Bool()) {
@@ -554,7 +575,7 @@ func BuildDoc(r *kit.Rand, cfg DocConfig) (*Doc, error) {
 	checkArgs("Close")
 	if seek != nil {
 		d.Data = seek.Buf
-	} else {
+	} else if nonseek != nil {
 		d.Data = nonseek.Buf.Bytes()
 	}
 	// unwritten = allocated and never used
